@@ -261,6 +261,7 @@ class Ctx:
     t0: float
     notes: List[str] = field(default_factory=list)
     escalate: bool = False
+    changed_files: List[str] = field(default_factory=list)
 
     @property
     def thorough(self):
@@ -331,6 +332,13 @@ def property_anchor_files(prop: str) -> List[str]:
         if d['id'] == prop:
             files = [f for f in d['anchors']['files'] if f.endswith(('.py', '.json', '.js'))]
     extra = {'C05': ['panqec/decoders/belief_propagation/mbp_decoder.py', 'panqec/decoders/xcube/_xcube_matching_decoder.py'],
+             'C06': ['panqec/decoders/sweepmatch/_sweep_decoder_3d.py', 'panqec/decoders/sweepmatch/_rotated_sweep_decoder.py',
+                     'panqec/decoders/sweepmatch/_sweep_match_decoder.py',
+                     'panqec/decoders/sweepmatch/_rotated_sweep_match_decoder.py',
+                     'panqec/decoders/belief_propagation/mbp_decoder.py'],
+             'C18': ['panqec/error_models/_pauli_error_model.py'],
+             'C17': ['panqec/simulation/_base_simulation.py', 'panqec/simulation/_batch_simulation.py',
+                     'panqec/analysis.py'],
              'C20': ['panqec/decoders/base/_base_decoder.py']}
     return sorted(set(files + extra.get(prop, [])))
 
@@ -339,7 +347,27 @@ def property_fingerprint(prop: str) -> str:
     return source_fingerprint(property_anchor_files(prop))
 
 
-def recorded_fingerprints() -> Dict[str, str]:
+def recorded_fingerprints() -> Dict[str, Any]:
     if FINGERPRINTS.exists():
         return json.loads(FINGERPRINTS.read_text())
     return {}
+
+
+def repo_file_hashes() -> Dict[str, str]:
+    """sha256 (16 hex) of every source / data file under panqec/ of the checkout being checked"""
+    out = {}
+    root = REPO / 'panqec'
+    for p in sorted(root.rglob('*')):
+        if p.is_file() and p.suffix in ('.py', '.json', '.js') and '__pycache__' not in p.parts:
+            out[str(p.relative_to(REPO))] = hashlib.sha256(p.read_bytes()).hexdigest()[:16]
+    return out
+
+
+def changed_files() -> List[str]:
+    """files under panqec/ that differ from (or are absent from / new relative to) the state recorded in
+    fingerprints.json at the last green run -- lets a deep search spend its budget where the source changed"""
+    rec = recorded_fingerprints().get('_files')
+    if not rec:
+        return []
+    now = repo_file_hashes()
+    return sorted(f for f in set(rec) | set(now) if rec.get(f) != now.get(f))
